@@ -193,7 +193,7 @@ fn main() {
             for inband_fti in [true, false] {
                 for (cenc, inband_cenc) in [(CencSpec::Null, false), (CencSpec::Gzip, true), (CencSpec::Gzip, false)] {
                     for full_fdt in [true, false] {
-                        for v in 0..ctx.tier.pick(4usize, 12) {
+                        for v in 0..ctx.tier.pick(4usize, 32) {
                             cfgs.push(Cfg {
                                 fec, inband_fti, inband_cenc, cenc,
                                 nobj: if v < 4 { 1 + v % 3 } else { 2 + v % 4 },
